@@ -1,14 +1,14 @@
-(* Obligation C20/normal_exp_logpdf.  Statement as printed by Coq from Inferno.C20.DistProofs; proof by reference.
+(* Obligation C20/normal_exp_logpdf.  Statement as printed by Coq from Inferno.C20.DistNormal; proof by reference.
    This file contains nothing else, so the statement cannot be weakened quietly. *)
 From Coq Require Import Reals List ZArith Bool.
 From Coquelicot Require Import Coquelicot.
 From Flocq Require Import Core.Raux.
-From Inferno Require Import Base.Num Base.NumR C20.Model C20.Spec C20.DistProofs.
+From Inferno Require Import Base.Num Base.NumR Gen.Distributions C20.Model C20.Spec C20.DistNormal.
 Import ListNotations.
 Open Scope R_scope.
 Theorem normal_exp_logpdf : forall (tau : R) (x loc : T RN) (scale : R),
   0 < tau ->
   0 < scale ->
   Rtrigo_def.exp (normal_logpdf RN tau x loc scale) = normal_pdf RN tau x loc scale.
-Proof. exact (@Inferno.C20.DistProofs.normal_exp_logpdf). Qed.
+Proof. exact (@Inferno.C20.DistNormal.normal_exp_logpdf). Qed.
 Print Assumptions normal_exp_logpdf.
